@@ -1059,10 +1059,28 @@ impl TypeChecker {
                 return Ok(());
             }
             if new_len == last_len {
+                // No progress. The imports that are left either fail on
+                // their own or wait for each other in a cycle. Resolving
+                // the latter in source order would fall back to the names
+                // of the enclosing scopes for whichever comes first, so the
+                // result would depend on the order of the imports: a cycle
+                // is an error.
+                let pending = paths.clone();
                 for p in &paths {
+                    if self.import_must_wait(scope, p, &pending) {
+                        continue;
+                    }
                     self.import(scope, p)?;
                 }
-                return Ok(());
+                let p = paths[0];
+                let first = &p.idents[0];
+                return Err(self.error_simple(
+                    format!(
+                        "cannot resolve the import of `{first}`: it is introduced by another import of this scope that depends on this one"
+                    ),
+                    "cyclic imports",
+                    first.id,
+                ));
             }
         }
     }
